@@ -596,7 +596,8 @@ def iter_elem(self, it, node, loopnode=None):
         return IntV(Aff.sym(sym) if sym else None, t), n
     if isinstance(it, Opaque) and it.what == 'enumerate':
         el, n = self.iter_elem(it.args[0], node, None)
-        return Tup([IntV(None), el]), n
+        Aff.SYM_MIN['enum#'] = 0
+        return Tup([IntV(Aff.sym('enum#')), el]), n
     if isinstance(it, Opaque) and it.what == 'zip':
         els = [self.iter_elem(a, node, None) for a in it.args]
         return Tup([e for e, _n in els]), (els[0][1] if els else None)
